@@ -1,9 +1,9 @@
-\* thorough: one token, 7 values, 2 iterators; full transition graph exported for the product walk
+\* thorough: one token, 10 values, 1 iterator; graph exported
 SPECIFICATION Spec
 CONSTANTS
-  K = 7
+  K = 10
   T = 1
-  I = 2
+  I = 1
   MaxToks = 1
 INVARIANT TypeOK
 PROPERTIES NeverDeleted AdvanceBound
